@@ -23,6 +23,35 @@ def regex_literals(f, model=None):
     return [(how, pat, c) for how, pat, c, _rest in regex_uses(model, f) if how in ('re.search', 're.match', 're.findall', 're.fullmatch')]
 
 
+def line_sources(get, g, classifier):
+    """where the text handed to the classifier comes from: (classifier arguments, names of the inspect/linecache functions it is computed from, their call nodes)"""
+    cargs = []
+    for t_ in g.nodes:
+        for c_ in (t_.calls() if t_.kind not in ('entry', 'exit', 'xexit', 'def') else []):
+            if isinstance(c_.func, ast.Attribute) and dotted(c_.func.value) == get.params[0] and c_.func.attr == classifier.name and c_.args:
+                cargs.append(c_.args[0])
+    srcs = set()
+    calls = []
+    gdefs_ = local_defs(get.node)
+
+    def sources(e, depth=5):
+        for x in ast.walk(e):
+            if isinstance(x, ast.Call):
+                fn_ = norm(x.func)
+                if fn_.startswith('inspect.') or fn_.startswith('linecache.') or fn_ in ('getframeinfo', 'getline', 'getlines', 'getsourcelines', 'findsource', 'getsource'):
+                    srcs.add(fn_)
+                    calls.append(x)
+            if isinstance(x, ast.Name) and depth > 0:
+                for d_ in gdefs_.get(x.id, []):
+                    if isinstance(d_, tuple):          # one element of an unpacked call result
+                        d_ = next((y_ for y_ in d_ if isinstance(y_, ast.AST)), None)
+                    if isinstance(d_, ast.AST):
+                        sources(d_, depth - 1)
+    for a_ in cargs:
+        sources(a_)
+    return cargs, srcs, calls
+
+
 def check(run, model, tier):
     run.explanation = ('The lock hand-over of ThreadSafeAttribute depends on classifying the caller\'s source line. The '
                        'classifier\'s regex literal is read from the source and decided against the complete universe of '
@@ -36,6 +65,11 @@ def check(run, model, tier):
     get = cls.methods.get('__get__')
     if get is None:
         raise AnalysisError('ThreadSafeAttribute.__get__ not found')
+    # user code must not run while the lock is held for the coming __set__: the value is fetched from / put into the instance's own namespace, never through the attribute protocol
+    run.rule('PROTO.no-user-hook', 'between acquire and release the descriptor touches the instance only through its own namespace (__dict__ / vars): no getattr/setattr with a computed key, '
+                                   'whose __getattr__/__setattr__ hooks are user code that may raise with the lock held')
+    from props.c29 import own_namespace_rule
+    own_namespace_rule(run, model, cls, 'PROTO.no-user-hook', writes_too=True)
     g = cfg_of(get)
     run.touch(get, g)
     # the classifier: the self-method called in a test of __get__ whose result decides release
@@ -86,28 +120,7 @@ def check(run, model, tier):
     # ---- where the classified text comes from: the caller's *current* source line.  inspect.getframeinfo / getsourcelines / findsource revalidate the line cache against the
     # file on every call (linecache.checkcache); a bare linecache.getline does not, and hands out the text the module had when it was first read
     run.rule('PROTO.source-line', 'the line given to the classifier is the caller\'s current source line: taken from inspect.getframeinfo(<caller frame>) (or from linecache after checkcache)')
-    cargs = []
-    for t_ in g.nodes:
-        for c_ in (t_.calls() if t_.kind not in ('entry', 'exit', 'xexit', 'def') else []):
-            if isinstance(c_.func, ast.Attribute) and dotted(c_.func.value) == get.params[0] and c_.func.attr == classifier.name and c_.args:
-                cargs.append(c_.args[0])
-    srcs = set()
-    gdefs_ = local_defs(get.node)
-
-    def sources(e, depth=5):
-        for x in ast.walk(e):
-            if isinstance(x, ast.Call):
-                fn_ = norm(x.func)
-                if fn_.startswith('inspect.') or fn_.startswith('linecache.') or fn_ in ('getframeinfo', 'getline', 'getlines', 'getsourcelines', 'findsource', 'getsource'):
-                    srcs.add(fn_)
-            if isinstance(x, ast.Name) and depth > 0:
-                for d_ in gdefs_.get(x.id, []):
-                    if isinstance(d_, tuple):          # one element of an unpacked call result
-                        d_ = next((y_ for y_ in d_ if isinstance(y_, ast.AST)), None)
-                    if isinstance(d_, ast.AST):
-                        sources(d_, depth - 1)
-    for a_ in cargs:
-        sources(a_)
+    cargs, srcs, _src_calls = line_sources(get, g, classifier)
     fresh_api = {s_ for s_ in srcs if s_.split('.')[-1] in ('getframeinfo', 'getsourcelines', 'findsource', 'getsource', 'getinnerframes', 'stack', 'getouterframes')}
     cached_api = {s_ for s_ in srcs if s_.split('.')[-1] in ('getline', 'getlines')}
     revalidated = any(isinstance(c_.func, ast.Attribute) and norm(c_.func).endswith('linecache.checkcache') for c_ in shallow_calls(get.node))
